@@ -34,7 +34,7 @@ Proof. vm_compute. repeat split; try reflexivity. discriminate. Qed.
 
 (* a MeCab definition: ALPHA always invoked, grouped, lengths 1..2, two unknown-word definitions; KANJI on demand *)
 Definition ex_mecab : mecab :=
-  mkMecab [mkCI CF.ALPHA true true 2; mkCI CF.KANJI false false 3; mkCI CF.DEFAULT false true 0]
+  mkMecab [mkCI CF.ALPHA true true 2; mkCI CF.KANJI false false 3; mkCI CF.DEFAULT false true 0; mkCI CF.HIRAGANA true false 4294967295]
           [(CF.ALPHA, [mkOov 1 1 100%Z 0; mkOov 2 3 (-5)%Z 1]); (CF.KANJI, [mkOov 0 0 7%Z 2])].
 Definition ex_text2 : list N := [CF.ALPHA; CF.ALPHA; N.lor CF.ALL CF.NOOOVBOW; CF.ALPHA; CF.KANJI; CF.KANJI].
 
@@ -43,12 +43,17 @@ Example ex_mecab_run :
   ROk [mkNode 0 4 1 1 100%Z 0; mkNode 0 4 2 3 (-5)%Z 1;
        mkNode 0 1 1 1 100%Z 0; mkNode 0 1 2 3 (-5)%Z 1; mkNode 0 2 1 1 100%Z 0; mkNode 0 2 2 3 (-5)%Z 1].
 Proof. vm_compute. reflexivity. Qed.
-(* (the run reaches the end of the text and the class allows longer candidates: char_distance saturates and the
-   full-run candidate is produced once more -- the same candidate twice, the set is the prescribed one) *)
+(* (the run reaches the end of the text and the class allows longer candidates: before the `fix:` of the clamped-distance
+   loop the full-run candidate 4..6 was produced once more for length 3) *)
 Example ex_mecab_on_demand :
-  mecab_provide ex_mecab ex_text2 (continuity ex_text2) 4 0 = ROk [mkNode 4 5 0 0 7%Z 2; mkNode 4 6 0 0 7%Z 2; mkNode 4 6 0 0 7%Z 2]
+  mecab_provide ex_mecab ex_text2 (continuity ex_text2) 4 0 = ROk [mkNode 4 5 0 0 7%Z 2; mkNode 4 6 0 0 7%Z 2]
   /\ mecab_provide ex_mecab ex_text2 (continuity ex_text2) 4 1 = ROk [].
 Proof. vm_compute. split; reflexivity. Qed.
+(* a class whose char.def header allows candidates of up to 4294967295 characters: still one candidate per length of the run *)
+Example ex_mecab_huge_length :
+  mecab_provide (mkMecab [mkCI CF.KANJI true false 4294967295] [(CF.KANJI, [mkOov 0 0 7%Z 2])]) ex_text2 (continuity ex_text2) 4 0
+  = ROk [mkNode 4 5 0 0 7%Z 2; mkNode 4 6 0 0 7%Z 2].
+Proof. vm_compute. reflexivity. Qed.
 Example ex_prescribed_same : same_node_set [mkNode 4 5 0 0 7%Z 2; mkNode 4 6 0 0 7%Z 2] (prescribed ex_mecab ex_text2 4 0) = true.
 Proof. vm_compute. reflexivity. Qed.
 
